@@ -674,6 +674,8 @@ func (lb *LoadBalancer) handleRequest(w http.ResponseWriter, r *http.Request, st
 	if backend == nil {
 		logging.WithContext(r.Context()).Warn().Str("path", r.URL.Path).Msg("no healthy backend available")
 		http.Error(w, "No healthy backend servers available", http.StatusServiceUnavailable)
+		// Every request counted in total_requests must end up in successful, failed or rate-limited
+		lb.metricsCollector.RecordResponse(false, time.Since(startTime))
 		return nil
 	}
 
